@@ -7,7 +7,7 @@ META = {
                    "(EX1–EX5: enqueue only at waiting_on==0 after the decrement, start only under exe_deps_succeeded(), "
                    "SUCCEEDED only after finish_execution returned) on every path of the CFGs. Decides the structural "
                    "necessary conditions listed in DESIGN §4.C01, not the run-time ordering itself. The exit status a dependency is given is that of its own reaped pid, from the single reaper (RT10, SG8, INF1).",
-    "rules": ["PL1", "PL2", "PL3", "PL10", "W1(planner)", "PL5", "EX1", "EX2", "EX3", "EX4", "EX5", "EX6", "SGc", "RT1", "RT10", "SG8", "INF1"],
+    "rules": ["PL1", "PL2", "PL3", "PL10", "W1(planner)", "PL5", "EX1", "EX2", "EX3", "EX4", "EX5", "EX6", "SGc", "RT1", "RT10", "SG8", "INF1", "PL7"],
     "assumptions": ["CPython statement semantics", "an op leaves the in-flight set only when its own pid was reaped (C09)",
                     "hand argument of DESIGN §4.C01 that the rules imply the ordering by induction on the op graph"],
     "trusted": ["ast parser", "own call resolver (unresolved calls counted in coverage.analysed)"],
@@ -33,3 +33,6 @@ def run(A, rep, tier):
     RP.rule_rt10(A, rep)
     RP.rule_sg8(A, rep)
     RP.rule_inf1(A, rep)
+    # only RunExperiment decides caching: another task type answering "cached" for itself (from its members' answers) is
+    # pruned from the plan together with the edges that ordered its dependents after those members
+    P.rule_pl7_overriders(A, rep)
